@@ -68,7 +68,7 @@ META = {
                 "||P - J_l^-1|| <= ||ad||^6/4700); for 1 < ||ad|| < 2pi the documented bound 2||ad||^6/30240/(1-(||ad||/2pi)^2) is measured by the "
                 "mpmath oracle only",
                 "adjoint identity on small-angle branches of the CODED Exp: SO3/RxSO3 exact for every a; SE3 Adj with 0<theta<=eps proved with an "
-                "explicit bounded residual (SE3_Adj_identity_taylor_partial, SE3_AdjT_identity_taylor_partial, se3_taylor_defect_bounds, se3_taylor_defect_size: the translation blocks differ by at most "
+                "explicit bounded residual (SE3_Adj_identity_taylor_partial, SE3_AdjT_identity_taylor_partial, se3_taylor_defect_bounds, se3_taylor_defect_size, SE3_Adj/AdjT_taylor_distance: the translation blocks differ by at most "
                 "theta^7 |t|/5760 + theta^6 |t|/720); Sim3 with "
                 "0<theta<=eps or 0<|sigma|<=eps: only an exact algebraic unfolding (Sim3_Adj_residual_partial, no size bound), AdjT: no theorem. "
                 "The matrix-level statements (*_hat_Adj/_AdjT, *_exp_Adj/_AdjT) hold for every input but are about matrix(X) and MATHLIB's "
